@@ -176,11 +176,100 @@ func not(x string) string {
 	return "(not " + x + ")"
 }
 
+// knownNonzero: names of constants that are constrained (by session facts) to be non-zero
+// (fresh error identities). Used only to simplify comparisons with 0.
+var knownNonzero = map[string]bool{}
+
+func isNumeralTerm(t string) bool {
+	if t == "" {
+		return false
+	}
+	for _, c := range t {
+		if c < '0' || c > '9' {
+			return false
+		}
+	}
+	return true
+}
+
 func eq(a, b string) string {
 	if a == b {
 		return "true"
 	}
+	if isNumeralTerm(a) && isNumeralTerm(b) {
+		return "false"
+	}
+	if a == "0" {
+		a, b = b, a
+	}
+	if b == "0" {
+		if knownNonzero[a] {
+			return "false"
+		}
+		if c, x, y, ok := splitIte(a); ok {
+			ex, ey := eq(x, "0"), eq(y, "0")
+			if (ex == "true" || ex == "false") || (ey == "true" || ey == "false") {
+				return iteBool(c, ex, ey)
+			}
+		}
+	}
 	return "(= " + a + " " + b + ")"
+}
+
+func iteBool(c, a, b string) string {
+	switch {
+	case a == b:
+		return a
+	case a == "true" && b == "false":
+		return c
+	case a == "false" && b == "true":
+		return not(c)
+	case a == "true":
+		return or(c, b)
+	case a == "false":
+		return and(not(c), b)
+	case b == "true":
+		return or(not(c), a)
+	case b == "false":
+		return and(c, a)
+	}
+	return "(ite " + c + " " + a + " " + b + ")"
+}
+
+// splitIte parses "(ite c x y)" into its three arguments.
+func splitIte(t string) (c, x, y string, ok bool) {
+	if !strings.HasPrefix(t, "(ite ") || !strings.HasSuffix(t, ")") {
+		return
+	}
+	body := t[5 : len(t)-1]
+	var parts []string
+	depth, start := 0, 0
+	inBar := false
+	for i := 0; i < len(body); i++ {
+		ch := body[i]
+		if ch == '|' {
+			inBar = !inBar
+		}
+		if inBar {
+			continue
+		}
+		switch ch {
+		case '(':
+			depth++
+		case ')':
+			depth--
+		case ' ':
+			if depth == 0 {
+				parts = append(parts, body[start:i])
+				start = i + 1
+			}
+		}
+	}
+	parts = append(parts, body[start:])
+	if len(parts) != 3 {
+		return
+	}
+	return parts[0], parts[1], parts[2], true
 }
 
 func ite(c, a, b string) string {
